@@ -250,12 +250,15 @@ pub mod verif {
     }
 
     /// A frame with the stream id spelled out. For frames to encode, `(num, role)` is the
-    /// `LocalStreamId`; for decoded frames it is the `RemoteStreamId` as produced by the decoder.
+    /// `LocalStreamId` (`local_role` is ignored); for decoded frames `(num, role)` is the
+    /// `RemoteStreamId` as produced by the decoder and `local_role` the role of
+    /// `RemoteStreamId::into_local()`.
     #[derive(Debug, Clone, PartialEq, Eq)]
     pub struct Frame {
         pub kind: Kind,
         pub num: u64,
         pub role: Endpoint,
+        pub local_role: Endpoint,
         pub data: Bytes,
     }
 
@@ -290,6 +293,7 @@ pub mod verif {
         pub fn decode(&mut self, src: &mut BytesMut) -> std::io::Result<Option<Frame>> {
             Ok(self.0.decode(src)?.map(|frame| {
                 let (num, role) = frame.remote_id().verif_parts();
+                let (_, local_role) = frame.remote_id().into_local().verif_parts();
                 let (kind, data) = match frame {
                     codec::Frame::Open { .. } => (Kind::Open, Bytes::new()),
                     codec::Frame::Data { data, .. } => (Kind::Data, data),
@@ -300,6 +304,7 @@ pub mod verif {
                     kind,
                     num,
                     role,
+                    local_role,
                     data,
                 }
             }))
